@@ -532,8 +532,79 @@ Definition bfgs (fuel : nat) (x0 : vec) : outcome * trace :=
 
 End BFGS.
 
+(* ================================================================ adam/adam_dense.go *)
+(* adam.RunGradient: step_size is always the default 0.001 (RunGradient has no
+   "case StepSize"); the bias corrections beta_t are running products (no math.Pow). *)
+
+Record ad_params := mkAd {
+  ad_step : A; ad_beta1 : A; ad_beta2 : A; ad_eps : A;
+  ad_delta : A;   (* the literal 1e-8 added to sqrt(v_hat) *)
+  ad_maxit : Z; ad_hook : bool; ad_cons : bool
+}.
+
+Section Adam.
+Variable P : ad_params.
+
+(* "update x": None = NaN detected (the function returns x1 with an error) *)
+Fixpoint ad_upd (x1 m v g : vec) (b1t b2t : A) : option (vec * vec * vec) :=
+  match x1, m, v, g with
+  | a :: x1', mi :: m', vi :: v', gi :: g' =>
+      let mi' := ad_beta1 P *. mi +. (on -. ad_beta1 P) *. gi in
+      let vi' := ad_beta2 P *. vi +. (on -. ad_beta2 P) *. gi *. gi in
+      let m_hat := mi' /. (on -. b1t) in
+      let v_hat := vi' /. (on -. b2t) in
+      let b := a -. ad_step P *. m_hat /. (nsqrt NM v_hat +. ad_delta P) in
+      if is_nan NM b then None
+      else match ad_upd x1' m' v' g' b1t b2t with
+           | Some (xs, ms, vs) => Some (b :: xs, mi' :: ms, vi' :: vs)
+           | None => None
+           end
+  | _, _, _, _ => Some ([], [], [])
+  end.
+
+Fixpoint ad_loop (fuel : nat) (i : Z) (x1 x2 m v : vec) (b1t b2t : A) (tr : trace)
+  : outcome * trace :=
+  match fuel with
+  | O => (OutOfFuel, tr)
+  | S f =>
+    if i <? ad_maxit P then
+      let a := F (length tr) (QGrad x2) in
+      let tr1 := EvEval (QGrad x2) a :: tr in
+      if a_err a then (Err x1, tr1)
+      else
+        let g := a_g a in
+        if any_nan g then (Err x1, tr1)
+        else
+          let ok := if ad_cons P then CS (length tr1) x2 else true in
+          let tr2 := if ad_cons P then EvCons x2 ok :: tr1 else tr1 in
+          if negb ok then (Err x1, tr2)
+          else
+            let h := mkHook x1 g None [] in
+            let stop := if ad_hook P then HK (length tr2) h else false in
+            let tr3 := if ad_hook P then EvHook h stop :: tr2 else tr2 in
+            if stop then (HookStop x1, tr3)
+            else if norm g <. ad_eps P then (Converged x1, tr3)
+            else match ad_upd x1 m v g b1t b2t with
+                 | None => (Err x1, tr3)
+                 | Some (x2', m', v') =>
+                     ad_loop f (i + 1) x2' x2' m' v' (b1t *. ad_beta1 P) (b2t *. ad_beta2 P) tr3
+                 end
+    else (Cap x1, tr)
+  end.
+
+Definition adam_dense (fuel : nat) (x0 : vec) : outcome * trace :=
+  let n := length x0 in
+  let x1 := x0 in
+  let ok := if ad_cons P then CS 0 x1 else true in
+  let tr0 := if ad_cons P then [EvCons x1 ok] else [] in
+  if negb ok then (Err x1, tr0)
+  else ad_loop fuel 0 x1 x1 (repeat zr n) (repeat zr n) (ad_beta1 P) (ad_beta2 P) tr0.
+
+End Adam.
+
 End Model.
 
+Arguments mkAd {A}.
 Arguments mkAns {A}. Arguments a_err {A}. Arguments a_y {A}. Arguments a_g {A}.
 Arguments QGrad {A}. Arguments QDir {A}.
 Arguments mkHook {A}. Arguments h_x {A}. Arguments h_g {A}. Arguments h_y {A}. Arguments h_step {A}.
